@@ -12,12 +12,16 @@ use crate::world::{ops_short, run_world, Op, OptSet, WorldFailure};
 pub mod c01;
 pub mod c06;
 pub mod c07;
+pub mod c08;
+pub mod c09;
 
 pub fn check(prop: &str, tier: Tier) -> i32 {
 	match prop {
 		"C01" => c01::check(tier),
 		"C06" => c06::check(tier),
 		"C07" => c07::check(tier),
+		"C08" => c08::check(tier),
+		"C09" => c09::check(tier),
 		_ => {
 			eprintln!("machinery: unknown property {prop}");
 			2
@@ -42,7 +46,9 @@ pub fn replay(prop: &str, file: &str) -> i32 {
 	};
 	let r = j.get("replay").cloned().unwrap_or(j.clone());
 	match prop {
-		"C06" | "C01" | "C07" | "C11" => replay_world(prop, &r),
+		"C06" | "C01" | "C07" | "C11" if r["engine"] == "world" => replay_world(prop, &r),
+		"C08" => c08::replay(&r),
+		"C09" => c09::replay(&r),
 		_ => {
 			eprintln!("machinery: no replay for {prop}");
 			2
